@@ -339,11 +339,11 @@ func effectRows(c *Ctx, fn *ssa.Function) []siteRow {
 					add("copies", c.Expr(cc.Args[0]), i, "from "+c.Expr(cc.Args[1]))
 					return
 				}
-				if n == "" || strings.HasPrefix(n, "builtin.") {
+				if strings.HasPrefix(n, "builtin.") {
 					return
 				}
-				if !strings.Contains(n, "http2.") && !strings.Contains(n, "hpack.") && !strings.HasPrefix(n, "sort.") {
-					return
+				if n == "" {
+					n = "dyn:" + c.Expr(cc.Value)
 				}
 				var args []string
 				for _, a := range callArgs(cc) {
